@@ -55,10 +55,14 @@ func (s *Server) Watch(r *proto.WatchRequest, server proto.Watch_WatchServer) er
 			continue
 		}
 
+		if len(events) == 0 {
+			continue
+		}
 		s.metricCli.EmitCounter("brain.watch.event", len(events))
 		watchResponse := &proto.WatchResponse{
+			// the header names the revision of the newest event carried, never less than the data
 			Header: &proto.ResponseHeader{
-				Revision: r.Revision,
+				Revision: events[len(events)-1].Revision,
 			},
 			Events: events,
 		}
